@@ -662,3 +662,9 @@ mod tests {
     }
 }
 
+
+#[cfg(uflow_verif)]
+impl AssemblyWindow {
+    pub fn verif_alloc(&self) -> usize { self.alloc }
+    pub fn verif_max_alloc(&self) -> usize { self.max_alloc }
+}
